@@ -151,6 +151,9 @@ def wrappers(t, force_alias=False):
             ('after s as A: u requires t { %s }' % text, {'this': 't', 'A': 's'}),
             ('globally: t { %s } requires s as A' % text, None),  # trigger cannot see the behaviour alias... (requires: behaviour binds first)
             ('after s as A until t { %s }: no u' % text, {'this': 't', 'A': 's'}),
+            ('after s as A: no (u or t { %s })' % text, {'this': 't', 'A': 's'}),
+            ('globally: s as A causes (t { %s } or u or w)' % text, {'this': 't', 'A': 's'}),
+            ('after s as A until (u or t { %s }): some w' % text, {'this': 't', 'A': 's'}),
         ]
     return [
         ('globally: no t { %s }' % text, {'this': 't'}),
